@@ -183,7 +183,7 @@ fn scan2(s0: usize, s1: usize, kind: u8, skip: bool, pipe: bool, m0: bool, m1: b
     kani::cover!(d[70] == 0x5A && d[s0 + 70] == 0xA5, "arbitrary payload bytes");
 }
 
-//@ harness: c14_scanner_drop_flushes props=C14 tier=quick class=functional covers=1 mem=12 timeout=900 est=60
+//@ harness: c14_scanner_drop_flushes props=C14 tier=thorough required=no class=functional covers=1 mem=24 timeout=900 est=200
 //@ bounds: InputScanner's Drop impl sends the three counters (RDHs seen / filtered / payload size) exactly once
 #[kani::proof]
 #[kani::unwind(3)]
@@ -229,7 +229,9 @@ macro_rules! S {
 // on this machine: three calls, ~1.2 M SSA steps, see DESIGN 1.6).
 // ---------------------------------------------------------------------------------------------
 fn scan_step(s0: usize, s1: usize, kind: u8, skip: bool, pipe: bool, m0: bool, m1: bool, stats: bool, p_zero: bool) {
-    let d = stream2(s0, s1, m0, m1);
+    scan_step_d(stream2(s0, s1, m0, m1), s0, s1, kind, skip, pipe, m0, m1, stats, p_zero)
+}
+fn scan_step_d(d: [u8; N], s0: usize, s1: usize, kind: u8, skip: bool, pipe: bool, m0: bool, m1: bool, stats: bool, p_zero: bool) {
     let val: u16 = match kind {
         1 => LINK_A as u16,
         2 => FEE_A,
@@ -292,6 +294,8 @@ fn scan_step(s0: usize, s1: usize, kind: u8, skip: bool, pipe: bool, m0: bool, m
         if !m0 {
             let l_distinct = r_link_id(&h0) != r_link_id(&h1);
             assert!(log.count(4) == 1 + l_distinct as usize, "links observed are not the distinct link ids visited");
+            let f_distinct = r_fee_id(&h0) != r_fee_id(&h1);
+            assert!(log.count(5) == 1 + f_distinct as usize, "FEE ids observed are not the distinct FEE ids visited");
         }
     }
     core::mem::forget(sc);
@@ -299,53 +303,64 @@ fn scan_step(s0: usize, s1: usize, kind: u8, skip: bool, pipe: bool, m0: bool, m
     kani::cover!(d[70] == 0x5A && d[s0 + 70] == 0xA5, "arbitrary payload bytes");
 }
 
-//@ harness: c03_step_nofilter_load props=C03,C07,C08 tier=quick class=functional covers=1 mem=14 timeout=1500 est=200 args=-Z,restrict-vtable
+//@ harness: c03_step_nofilter_load props=C03 also=C07,C08 tier=quick class=functional covers=1 mem=14 timeout=1500 est=200 args=-Z,restrict-vtable
 //@ bounds: ONE load_cdp from an arbitrary input position 0 < P < 2^40: packet of 74 bytes (all header bytes but sizes/ids and all 10 payload bytes symbolic), no filter, payload loaded, file-like reader: offset = P, header/payload truthful, tracker and reader end at P+74 (inductive step => chains of any length)
 S!(c03_step_nofilter_load, 2, scan_step(74, 80, 0, false, false, true, false, false, false));
-//@ harness: c03_step_nofilter_skip_pipe props=C03,C07 tier=quick class=functional covers=1 mem=14 timeout=1500 est=200 args=-Z,restrict-vtable
+//@ harness: c03_step_nofilter_skip_pipe props=C03 also=C07 tier=quick class=functional covers=1 mem=14 timeout=1500 est=200 args=-Z,restrict-vtable
 //@ bounds: same, packet of 80 bytes, payload skipped by read-and-discard on a pipe-like reader
 S!(c03_step_nofilter_skip_pipe, 2, scan_step(80, 64, 0, true, true, true, false, false, false));
-//@ harness: c03_step_nofilter_skip_file props=C03,C07 tier=quick class=functional covers=1 mem=14 timeout=1500 est=200 args=-Z,restrict-vtable
+//@ harness: c03_step_nofilter_skip_file props=C03 also=C07 tier=thorough class=functional covers=1 mem=14 timeout=1500 est=200 args=-Z,restrict-vtable
 //@ bounds: same, payload skipped by a relative seek on a file-like reader
 S!(c03_step_nofilter_skip_file, 2, scan_step(80, 64, 0, true, false, true, false, false, false));
-//@ harness: c03_step_link_second props=C03,C07,C08 tier=quick class=functional covers=1 mem=14 timeout=1800 est=300 args=-Z,restrict-vtable
+//@ harness: c03_step_link_second props=C03 also=C07,C08 tier=quick class=functional covers=1 mem=14 timeout=1800 est=300 args=-Z,restrict-vtable
 //@ bounds: ONE load_cdp from arbitrary P with a link filter: first packet (74 bytes) does not match and is skipped, the second (80 bytes) matches: delivered offset = P+74, its header/payload truthful, tracker/reader at P+154
 S!(c03_step_link_second, 2, scan_step(74, 80, 1, false, false, false, true, false, false));
-//@ harness: c03_step_fee_first_skip props=C03,C07 tier=quick class=functional covers=1 mem=14 timeout=1800 est=300 args=-Z,restrict-vtable
+//@ harness: c03_step_fee_first_skip props=C03 also=C07 tier=thorough class=functional covers=1 mem=14 timeout=1800 est=300 args=-Z,restrict-vtable
 //@ bounds: FEE-id filter, first packet matches, payloads skipped by seek: offset = P, tracker/reader at P+80
 S!(c03_step_fee_first_skip, 2, scan_step(80, 64, 2, true, false, true, false, false, false));
-//@ harness: c03_step_stave_second_pipe props=C03,C07,C08 tier=quick class=functional covers=1 mem=14 timeout=1800 est=300 args=-Z,restrict-vtable
+//@ harness: c03_step_stave_second_pipe props=C03 also=C07,C08 tier=quick class=functional covers=1 mem=14 timeout=1800 est=300 args=-Z,restrict-vtable
 //@ bounds: layer/stave filter on a pipe-like reader: first packet has the same layer but stave+32 (skipped by read-and-discard, empty payload), second matches and is loaded
 S!(c03_step_stave_second_pipe, 2, scan_step(64, 74, 3, false, true, false, true, false, false));
-//@ harness: c03_step_stave_none props=C03,C14 tier=quick class=functional covers=1 mem=14 timeout=1800 est=300 args=-Z,restrict-vtable
+//@ harness: c03_step_stave_none props=C03 also=C14 tier=quick class=functional covers=1 mem=14 timeout=1800 est=300 args=-Z,restrict-vtable
 //@ bounds: layer/stave filter value not present: both packets visited and skipped, then UnexpectedEof
 S!(c03_step_stave_none, 3, scan_step(64, 74, 3, true, false, false, false, false, false));
-//@ harness: c14_step_stats_first props=C14,C03 tier=quick class=functional covers=1 mem=14 timeout=1800 est=300 args=-Z,restrict-vtable
-//@ bounds: first call (P = 0) with the statistics channel: run trigger type / data format / system id of the first RDH sent once; RDHSeen/RDHFiltered/PayloadSize/links/FEE ids equal the ground truth of the visited packets (link filter, first packet skipped)
-S!(c14_step_stats_first, 2, scan_step(74, 80, 1, false, false, false, true, true, true));
-//@ harness: c14_step_stats_mid props=C14,C03 tier=quick class=functional covers=1 mem=14 timeout=1800 est=300 args=-Z,restrict-vtable
+//@ harness: c14_step_stats_first props=C14 also=C03 tier=quick class=functional covers=1 mem=24 timeout=1800 est=300 args=-Z,restrict-vtable
+//@ bounds: first call (P = 0) with the statistics channel, no filter, payload skipped: run trigger type / data format / system id of the first RDH sent once; RDHSeen/PayloadSize/link/FEE id equal the ground truth
+S!(c14_step_stats_first, 2, scan_step(74, 80, 0, true, false, true, false, true, true));
+//@ harness: c14_step_stats_same_fee props=C14 tier=quick class=functional covers=1 mem=24 timeout=2400 est=400 args=-Z,restrict-vtable
+//@ bounds: mid-stream call with a link filter; the skipped first packet and the delivered second packet carry the SAME FEE id on DIFFERENT links: both links are observed, the FEE id once
+S!(c14_step_stats_same_fee, 2, {
+    let mut d = stream2(74, 80, false, true);
+    d[2] = FEE_A as u8;
+    d[3] = (FEE_A >> 8) as u8; // first packet: link B, FEE A
+    scan_step_d(d, 74, 80, 1, false, false, false, true, true, false)
+});
+//@ harness: c14_step_stats_filter props=C14 also=C03 tier=thorough class=functional covers=1 mem=28 timeout=2400 est=400 args=-Z,restrict-vtable
+//@ bounds: mid-stream call with a link filter, first packet skipped: RDHSeen counts both visited packets, RDHFiltered the delivered one, both links observed
+S!(c14_step_stats_filter, 2, scan_step(74, 80, 1, false, false, false, true, true, false));
+//@ harness: c14_step_stats_mid props=C14 also=C03 tier=quick class=functional covers=1 mem=20 timeout=1800 est=300 args=-Z,restrict-vtable
 //@ bounds: mid-stream call (P > 0), no filter: no initial statistics again; counters equal ground truth
 S!(c14_step_stats_mid, 2, scan_step(74, 80, 0, false, false, true, false, true, false));
 
-//@ harness: c03_scan2_nofilter_load props=C03,C07,C08,C14 tier=thorough required=no class=functional covers=1 mem=28 timeout=1200 est=120 args=-Z,restrict-vtable
+//@ harness: c03_scan2_nofilter_load props=C03 also=C07,C08,C14 tier=thorough required=no class=functional covers=1 mem=28 timeout=1200 est=120 args=-Z,restrict-vtable
 //@ bounds: all contents of the well-framed 2-packet stream with sizes (74, 80) (payloads 10 and 16 bytes; link/FEE ids of the two packets fixed, all other 122 header bytes and all payload bytes symbolic), no filter, payloads loaded, file-like reader
 S!(c03_scan2_nofilter_load, 2, scan2(74, 80, 0, false, false, true, false, false));
-//@ harness: c03_scan2_nofilter_skip_pipe props=C03,C07,C14 tier=thorough required=no class=functional covers=1 mem=28 timeout=1200 est=120 args=-Z,restrict-vtable
+//@ harness: c03_scan2_nofilter_skip_pipe props=C03 also=C07,C14 tier=thorough required=no class=functional covers=1 mem=28 timeout=1200 est=120 args=-Z,restrict-vtable
 //@ bounds: sizes (80, 64) (second payload empty), no filter, payloads skipped by read-and-discard, pipe-like reader
 S!(c03_scan2_nofilter_skip_pipe, 2, scan2(80, 64, 0, true, true, true, false, false));
-//@ harness: c03_scan2_link_second props=C03,C07,C08,C14 tier=thorough required=no class=functional covers=1 mem=28 timeout=1200 est=150 args=-Z,restrict-vtable
+//@ harness: c03_scan2_link_second props=C03 also=C07,C08,C14 tier=thorough required=no class=functional covers=1 mem=28 timeout=1200 est=150 args=-Z,restrict-vtable
 //@ bounds: sizes (74, 80), link filter selecting only the SECOND packet (first skipped by the filter loop), payloads loaded, file-like reader: delivered offset must be the second packet's
 S!(c03_scan2_link_second, 2, scan2(74, 80, 1, false, false, false, true, false));
-//@ harness: c03_scan2_link_first props=C03,C07,C08,C14 tier=thorough required=no class=functional covers=1 mem=28 timeout=1200 est=150 args=-Z,restrict-vtable
+//@ harness: c03_scan2_link_first props=C03 also=C07,C08,C14 tier=thorough required=no class=functional covers=1 mem=28 timeout=1200 est=150 args=-Z,restrict-vtable
 //@ bounds: sizes (74, 80), link filter selecting only the FIRST packet (trailing packet skipped), payloads loaded
 S!(c03_scan2_link_first, 2, scan2(74, 80, 1, false, false, true, false, false));
-//@ harness: c03_scan2_fee_both_skip props=C03,C07,C14 tier=thorough required=no class=functional covers=1 mem=28 timeout=1200 est=150 args=-Z,restrict-vtable
+//@ harness: c03_scan2_fee_both_skip props=C03 also=C07,C14 tier=thorough required=no class=functional covers=1 mem=28 timeout=1200 est=150 args=-Z,restrict-vtable
 //@ bounds: sizes (80, 64), FEE-id filter selecting both packets, payloads skipped by seek, file-like reader
 S!(c03_scan2_fee_both_skip, 2, scan2(80, 64, 2, true, false, true, true, false));
-//@ harness: c03_scan2_stave_none_pipe props=C03,C07,C14 tier=thorough required=no class=functional covers=1 mem=28 timeout=1200 est=150 args=-Z,restrict-vtable
+//@ harness: c03_scan2_stave_none_pipe props=C03 also=C07,C14 tier=thorough required=no class=functional covers=1 mem=28 timeout=1200 est=150 args=-Z,restrict-vtable
 //@ bounds: sizes (64, 74), layer/stave filter whose value is NOT present (both packets skipped), pipe-like reader: nothing delivered, UnexpectedEof, statistics count both
 S!(c03_scan2_stave_none_pipe, 3, scan2(64, 74, 3, true, true, false, false, false));
-//@ harness: c03_scan2_stave_second_load_pipe props=C03,C07,C08,C14 tier=thorough class=functional covers=1 mem=28 timeout=1200 est=150 args=-Z,restrict-vtable
+//@ harness: c03_scan2_stave_second_load_pipe props=C03 also=C07,C08,C14 tier=thorough required=no class=functional covers=1 mem=28 timeout=1200 est=150 args=-Z,restrict-vtable
 //@ bounds: sizes (80, 80), layer/stave filter selecting the second packet (first has the same layer but stave +32), payloads loaded, pipe-like reader
 S!(c03_scan2_stave_second_load_pipe, 2, scan2(80, 80, 3, false, true, false, true, false));
 
@@ -451,7 +466,7 @@ fn trunc_stream() -> [u8; N] {
 //   (74,138) next RDH incomplete
 // so the regions are enumerated at both of their ends; contents are symbolic in every instance.
 
-//@ harness: c18_trunc_rdh props=C18,C03,C04 tier=quick class=functional covers=1 mem=28 timeout=1500 est=150 args=-Z,restrict-vtable
+//@ harness: c18_trunc_rdh props=C18 also=C03,C04 tier=quick class=functional covers=1 mem=20 timeout=1500 est=150 args=-Z,restrict-vtable
 //@ bounds: one 74-byte packet (arbitrary contents) followed by arbitrary bytes, input cut inside the RDH (cuts 0 and 63 = both ends of the region in which read_exact(64) fails): UnexpectedEof, nothing delivered, no error
 S!(c18_trunc_rdh, 2, {
     let d = trunc_stream();
@@ -459,7 +474,7 @@ S!(c18_trunc_rdh, 2, {
     trunc_at(&d, 74, 63);
     kani::cover!(d[70] == 0x77, "arbitrary payload byte");
 });
-//@ harness: c18_trunc_payload props=C18,C03,C04 tier=quick class=functional covers=1 mem=28 timeout=1500 est=150 args=-Z,restrict-vtable
+//@ harness: c18_trunc_payload props=C18 also=C03,C04 tier=quick class=functional covers=1 mem=20 timeout=1500 est=150 args=-Z,restrict-vtable
 //@ bounds: same stream cut inside the payload (cuts 64 and 73): RDH delivered with empty payload + exactly one [E100]
 S!(c18_trunc_payload, 2, {
     let d = trunc_stream();
@@ -467,11 +482,17 @@ S!(c18_trunc_payload, 2, {
     trunc_at(&d, 74, 73);
     kani::cover!(d[70] == 0x77, "arbitrary payload byte");
 });
-//@ harness: c18_trunc_after props=C18,C03,C04 tier=quick class=functional covers=1 mem=28 timeout=1500 est=150 args=-Z,restrict-vtable
-//@ bounds: same stream cut at the packet boundary (74) and inside the following RDH (84): the complete packet is delivered unchanged with no error; the partial next RDH ends the scan
-S!(c18_trunc_after, 2, {
+//@ harness: c18_trunc_boundary props=C18 also=C03,C04 tier=quick class=functional covers=1 mem=20 timeout=1800 est=300 args=-Z,restrict-vtable
+//@ bounds: same stream cut exactly at the packet boundary (74): the complete packet is delivered unchanged with no error; the next call ends the scan
+S!(c18_trunc_boundary, 2, {
     let d = trunc_stream();
     trunc_at(&d, 74, 74);
+    kani::cover!(d[70] == 0x77, "arbitrary payload byte");
+});
+//@ harness: c18_trunc_next_rdh props=C18 also=C03,C04 tier=quick class=functional covers=1 mem=20 timeout=1800 est=300 args=-Z,restrict-vtable
+//@ bounds: same stream cut inside the following RDH (84): the complete packet is delivered unchanged with no error; the partial next RDH ends the scan
+S!(c18_trunc_next_rdh, 2, {
+    let d = trunc_stream();
     trunc_at(&d, 74, 84);
     kani::cover!(d[70] == 0x77, "arbitrary payload byte");
 });
